@@ -291,7 +291,14 @@ class LabReplay:
         ctx = dict(objs=objs, ev=ev, out=out, spec_pre=spec_pre, spec_post=spec_post, k=k, pre_key=pre_key, st=st)
         for mon in (self.mon_c04, self.mon_c03, self.mon_c01, self.mon_c02, self.mon_c07, self.mon_c10,
                     self.mon_c11, self.mon_c17, self.mon_c19, self.mon_c05, self.mon_c12):
-            mon(ctx)
+            try:
+                mon(ctx)
+            except Exception as e:
+                # the objects the implementation returned (or left behind) cannot even be observed: that is a failure of
+                # the property the monitor stands for, not of the machinery (it does not happen on a conforming tree)
+                prop = "C" + mon.__name__[-2:]
+                self.report(prop, "objects_cannot_be_observed", {"op": ev["op"], "exc": type(e).__name__},
+                            f"{out.call}: observing the result raised {type(e).__name__}: {e}", ev, pre_key)
         # does the implementation follow the specification on this transition?
         matched = self.conforms(ctx)
         if matched:
